@@ -96,6 +96,22 @@ def gen_cases(tier, seed):
         n = length if i % 2 == 0 else max(0, length + r.choice([-2, -1, 1, 2, 5]))
         cases.append({"k": "rangedur", "a": a.isoformat(), "len": length, "n": n, "u": r.choice(["days", "nights"]),
                       "order": r.choice(["dur-range", "range-dur", "range-für-dur"]), "word": r.random() < 0.3 and n <= 31 and n > 0})
+    # non-matching ranges that differ from N days by whole months / years / weeks (calendar-arithmetic slips hide there)
+    for i in range(400 if tier == "thorough" else 90):
+        a = date(2016, 1, 1) + timedelta(days=r.randrange(5000))
+        n = r.choice([1, 2, 3, 5, 7, 10])
+        kind = i % 3
+        if kind == 0:
+            b = cal.add_months(a, r.choice([1, 1, 2, 3, 12])) + timedelta(days=n)
+        elif kind == 1:
+            b = a + timedelta(days=n + 7 * r.choice([1, 2, 4]))
+        else:
+            b = cal.add_months(a + timedelta(days=n), 12 * r.choice([1, 2]))
+        length = (b - a).days
+        if length == n or b.year > 2029:
+            continue
+        cases.append({"k": "rangedur", "a": a.isoformat(), "len": length, "n": n, "u": r.choice(["days", "nights"]),
+                      "order": ["dur-range", "range-dur", "range-für-dur"][i % 3 if i % 2 else 0], "word": False})
     r.shuffle(cases)
     return cases
 
